@@ -8,7 +8,7 @@ satisfiable by a concrete (toy, symbolic) instance, so no theorem below is vacuo
 
 | clause of the statement | theorem(s) on the model | rest |
 |---|---|---|
-| a read returns the plaintext of a version a write-cap holder published, or an error, never other bytes | `accepted_version_published` (one share: prefix + blocks are a published version's), `installed_key_genuine`, `signed_root_never_reset`, `accepted_blocks_hash_to_signed_root`, `retrieve_validates_only_published_blocks` (a whole Retrieve, any sequence of rejected shares); `reset_variant_counterexample` shows the invariant is load-bearing | decoding k validated block sets to the plaintext is C36/C09; the servermap's per-update signature cache (`_valid_versions`, keyed on the whole verinfo) is **monitor only** (prefix-alteration family) |
+| a read returns the plaintext of a version a write-cap holder published, or an error, never other bytes | `accepted_version_published` (one share: prefix + blocks are a published version's), `installed_key_genuine`, `signed_root_never_reset`, `accepted_blocks_hash_to_signed_root`, `retrieve_validates_only_published_blocks` (a whole Retrieve, any sequence of rejected shares); `reset_variant_counterexample` shows the invariant is load-bearing | `decrypt_salt_is_signed` (the IV/salt handed to the decryptor is the signed one; `fresh_reader_counterexample` = seed C10-e); decoding k validated block sets to the plaintext is C36/C09; the servermap's per-update signature cache (`_valid_versions`, keyed on the whole verinfo) is **monitor only** (prefix-alteration family) |
 | … for any tampering: flipped bytes, forged signatures or keys, mixed versions, another file's shares | same theorems (the adversary supplies every field of every share; `World.unforgeable`, `fp_inj`, `chain_sound`, `bht_inj` are the hypotheses); `fieldDecision_table` for single-field alterations | which bytes of the two hash-chain fields a read consults: **correspondence/monitor only** |
 | if at least k intact shares of the newest published version are reachable, the read succeeds | `intact_share_accepted` (an intact share is accepted); `retrieve_succeeds_with_k_intact_partial` (the Retrieve loop ends with k good shares — guard: only the bad share is dropped, or one share per server); `readOnce_succeeds_partial` (one read, given `best` = that version). `drop_server_counterexample` = the code before /repo 280b4a6 (repaired; the harness compares the real loop with the `dropSrv = false` variant now); **still not true of the code as it is**: `offset_table_counterexample` (open finding, reproduced by the monitor) | that `best_recoverable_version` is the newest published version, the partial first survey (MODE_READ) and its retry: **correspondence only** (`vm`, `rd` driver ops); one share has one identity whichever proxy surveyed it: `canonical_offsets_same_identity` (`insertion_order_offsets_counterexample` = the code before 80fa722) |
 | holders of only a read-cap or verify-cap, and storage servers, cannot create a version that readers accept | `readcap_cannot_publish` (Dolev–Yao closure: no signature on an unpublished prefix, nor the signing or write key, is derivable) with `accepted_version_published` | computational soundness of RSA/SHA-256d: assumed |
@@ -165,6 +165,30 @@ forged ones keep being rejected afterwards -/
 example : (Toy.run (some 0) [.offer 0 1, .damaged 1 0 7, .offer 2 0, .offer 3 1, .fail 4, .offer 5 0]).1
     = [false, false, true, false, false, true] := by decide
 example : (Toy.run (some 0) [.offer 0 1, .damaged 1 0 7, .offer 2 0, .offer 3 1]).2.tree = some (.fam 0) := by decide
+
+/-! ### the salt used for decryption is the signed one -/
+
+/-- **decryption uses the IV of the signed prefix**: in a Retrieve for the version with signed prefix
+`pre` whose active readers are the ones cached by the map update that verified `pre` (the code: a
+version object keeps its servermap, and the servermap keeps its readers), the salt handed to the
+decryptor is `pre.salt`, whatever headers the servers would send now. -/
+theorem decrypt_salt_is_signed (pre : Prefix H) (readers : List (ReaderHdr H)) (hne : readers ≠ [])
+    (hc : ∀ r, r ∈ readers → r.cached = true ∧ r.verified = pre) :
+    decryptSalt readers = some pre.salt := by
+  cases readers with
+  | nil => exact absurd rfl hne
+  | cons r rest =>
+    obtain ⟨h1, h2⟩ := hc r List.mem_cons_self
+    simp [decryptSalt, ReaderHdr.believed, h1, h2]
+
+/-- why the readers must be the cached ones: one fresh reader for the lowest share, whose server now
+sends a header with another IV, and the segment is decrypted with that IV (nothing else in the header
+or the hash trees changes, so every check passes).  This is the variant "let go of the slot readers
+after a read", not the code. -/
+theorem fresh_reader_counterexample :
+    let pre : Prefix Nat := { seqnum := 2, root := 9, salt := 7, k := 2, n := 4, segsize := 10, datalen := 10 }
+    decryptSalt [⟨false, pre, { pre with salt := 99 }⟩, ⟨true, pre, pre⟩] = some 99 ∧
+    decryptSalt [⟨true, pre, { pre with salt := 99 }⟩, ⟨true, pre, pre⟩] = some 7 := by decide
 
 /-! ### liveness: which shares a Retrieve uses, which version a read goes for -/
 section Liveness
